@@ -143,6 +143,9 @@ func (cl *Cluster) Abstract(r respx.Reply) AbsRep {
 		if t, ok := cl.valTok(r.S); ok {
 			return AbsRep{T: "val", Toks: []Tok{t}}
 		}
+		if len(r.S) == 0 {
+			return AbsRep{T: "empty"}
+		}
 		s := r.S
 		if len(s) > 40 {
 			s = s[:40]
@@ -159,6 +162,8 @@ func (cl *Cluster) Abstract(r respx.Reply) AbsRep {
 			case '$':
 				if t, ok := cl.valTok(e.S); ok {
 					a.Toks = append(a.Toks, t)
+				} else if len(e.S) == 0 {
+					a.Toks = append(a.Toks, Tok{V: "empty"})
 				} else {
 					a.Toks = append(a.Toks, Tok{V: "other"})
 				}
